@@ -262,7 +262,18 @@ class Check:
                     undecided.append(ob)
                 continue
             if ob.status in {"unknown", "timeout", ""}:
-                undecided.append(ob)
+                # the solver gave no answer; a replay that finds a concrete failing input ON THE REAL CODE still decides it
+                rep = None
+                if ob.replay is not None and ob.kind in {"smt", "struct"}:
+                    try:
+                        rep = ob.replay({})
+                    except Exception:  # noqa: BLE001
+                        rep = None
+                if rep and rep.get("reproduced"):
+                    ob.detail = (ob.detail + " | solver undecided; refuted by a concrete input replayed on the real code").strip()
+                    violations.append((ob, self._write_replay(ob, rep, True), True))
+                else:
+                    undecided.append(ob)
                 continue
             # definite refutation (sat / structural failure)
             kf = _match_known(known, ob)
